@@ -287,3 +287,8 @@ def run(ck, prog, ctx):
     for b in stray:
         ck.violation("PHASE", "hpos/writer/" + b.short, "%s writes a record's direct-term list (allowed: annotate_K and the record decoders)" % b.short, where=b.where())
     ck.ob("PHASE", "hpos/writers", not stray, "callers of the record list writers: %s" % sorted(b.short for b in writers))
+
+    # ---- accessors: a method named after a field returns that field, not a sibling of the same type
+    ck.rule("GETTER", "an accessor `f()` / `f_mut()` of a struct with a field `f` (or its documented alias) derives its result from that field (DESIGN 3.9)")
+    from engines import check_getters
+    check_getters(ck, "GETTER", prog, r"^src/annotations/(gene|omim_disease|orpha_disease)\.rs$", floor=8)
